@@ -799,6 +799,7 @@ fn real_pattern_rules() -> Vec<(&'static str, Box<dyn PatternLinter>)> {
         PiqueInterest, PossessiveYour, SomewhatSomething, ThatWhich, TheHowWhy, ThenThan, UseGenitive, WasAloud, Whereas, WidelyAccepted)
 }
 fn premise_monitor(rep: &mut Report, rules: &[(&'static str, Box<dyn PatternLinter>)], fe: &str, text: &str, dict: &std::sync::Arc<FstDictionary>) {
+    struct_monitor(rep, fe, text, dict);
     let inp = json!({"kind": "premise", "frontend": fe, "text": text});
     let r = guarded(|| {
         let doc = frontends::make_document(fe, text, dict);
@@ -862,6 +863,57 @@ fn premise_monitor(rep: &mut Report, rules: &[(&'static str, Box<dyn PatternLint
     }
 }
 
+// ======================================================================================================
+// phase 6: the struct (whole-document) rules of Tables_c03structroots.v — every lint each of them makes on a generated document,
+// with the spans of ALL tokens of the document: `W` correspondence line, answered by the extracted C03StructRoots.run_struct_rule_span
+// ("yes" iff some Lint construction of the rule's row denotes that span for SOME token indices)
+// ======================================================================================================
+fn real_struct_rules(dict: &std::sync::Arc<FstDictionary>) -> Vec<(&'static str, Box<dyn Linter>)> {
+    use harper_core::linting::*;
+    macro_rules! rules { ($($r:ident),*) => { vec![$((stringify!($r), Box::new($r::default()) as Box<dyn Linter>)),*] } }
+    let mut v = rules!(AdjectiveOfA, AnA, AvoidCurses, CapitalizePersonalPronouns, CommaFixes, CorrectNumberSuffix, CurrencyPlacement,
+        EllipsisLength, LinkingVerbs, LongSentences, MergeWords, NoOxfordComma, NumberSuffixCapitalization, OxfordComma, RepeatedWords,
+        Spaces, SpelledNumbers, UnclosedQuotes, WordPressDotcom);
+    v.push(("SpellCheck", Box::new(SpellCheck::new(dict.clone(), Dialect::American))));
+    v.push(("InflectedVerbAfterTo", Box::new(InflectedVerbAfterTo::new(dict.clone(), Dialect::American))));
+    v.push(("SentenceCapitalization", Box::new(SentenceCapitalization::new(dict.clone(), Dialect::American))));
+    v
+}
+fn struct_monitor(rep: &mut Report, fe: &str, text: &str, dict: &std::sync::Arc<FstDictionary>) {
+    let r = guarded(|| {
+        let doc = frontends::make_document(fe, text, dict);
+        let n = doc.get_source().len();
+        let spans: Vec<String> = doc.get_tokens().iter().map(|t| format!("{} {}", t.span.start, t.span.end)).collect();
+        let toks_inside = doc.get_tokens().iter().all(|t| t.span.start <= t.span.end && t.span.end <= n);
+        let mut cases: Vec<(String, String)> = vec![];
+        for (name, rule) in real_struct_rules(dict).iter_mut() {
+            // at most the first two and the last lint of a rule per document (Spaces / SpellCheck make hundreds; the model
+            // answers one line per lint over the whole token list)
+            let ls = rule.lint(&doc);
+            let k = ls.len();
+            for (i, l) in ls.iter().enumerate() {
+                if i < 2 || i + 1 == k {
+                    cases.push((name.to_string(), format!("W {name} {} {} | {}", l.span.start, l.span.end, spans.join(" "))));
+                }
+            }
+        }
+        (cases, toks_inside)
+    });
+    let Ok((cases, toks_inside)) = r else {
+        rep.count("struct:document_or_rule_panicked(C01's business)");
+        return;
+    };
+    rep.monitor("document_token_outside_source", if toks_inside { 0 } else { 1 });
+    if !toks_inside {
+        rep.fail("document_token_outside_source", "a token of the document lies outside the source (token invariant, C02)".into(),
+            json!({"kind": "premise", "frontend": fe, "text": text}));
+    }
+    for (name, case) in cases {
+        rep.count(&format!("W:{name}"));
+        rep.case(&case, "yes");
+    }
+}
+
 pub fn replay_input(rep: &mut Report, v: &Value, group: &mut LintGroup, dict: &std::sync::Arc<FstDictionary>) {
     match v["kind"].as_str() {
         Some("span_op") => {
@@ -898,7 +950,7 @@ pub fn replay_input(rep: &mut Report, v: &Value, group: &mut LintGroup, dict: &s
 
 pub fn run(a: &Args, corpus: &[Value]) {
     let mut rep = Report::new(&a.out);
-    rep.rule = "(text, span, suggestion) triples: random (|text|<=12, alphabet incl. astral chars; spans inside the text incl. both ends, empty spans, equal-length replace) + a malformed stream of spans outside the text (panic agreement only); documents in every front-end (plain, Markdown x2, HTML, Typst, LHS, git-commit, 22 comment languages, +CollapseIdentifiers/+IsolateEnglish) under default / all-rules / random configurations: every lint in bounds, every suggestion = splice; thorough adds all triples with |text|<=6 over {a,b}. span.rs: every function (19 opcodes) on random spans / arguments incl. values up to usize::MAX and ill-formed spans, with the algebra (inverse laws, with_len, overlaps = shared position, get_content = slice) evaluated on the implementation, thorough adds all spans/arguments over 0..=5; LintGroup::lint: histories (configuration changes, 2-5 documents built from a pool of clauses that recur at other offsets, twin clauses) on one LintGroup::empty() carrying 3 whole-document and 5 pattern test rules (two stateful, two deliberately violating the chunk premise: panics and out-of-bounds lints included), in-bounds oracle when only well-behaved rules are enabled; premise monitor: 29 exported pattern rules run chunk by chunk on the generated documents, every lint inside its chunk; every slice run_on_chunk hands to their match_to_lint with the span of the lint made = `R` correspondence line against the table-driven body model (C03Roots.run_rule_span). non-trivial = distinct in-bounds triple, distinct document with >=1 lint, distinct span case, or history with a clause recurring at another offset".into();
+    rep.rule = "(text, span, suggestion) triples: random (|text|<=12, alphabet incl. astral chars; spans inside the text incl. both ends, empty spans, equal-length replace) + a malformed stream of spans outside the text (panic agreement only); documents in every front-end (plain, Markdown x2, HTML, Typst, LHS, git-commit, 22 comment languages, +CollapseIdentifiers/+IsolateEnglish) under default / all-rules / random configurations: every lint in bounds, every suggestion = splice; thorough adds all triples with |text|<=6 over {a,b}. span.rs: every function (19 opcodes) on random spans / arguments incl. values up to usize::MAX and ill-formed spans, with the algebra (inverse laws, with_len, overlaps = shared position, get_content = slice) evaluated on the implementation, thorough adds all spans/arguments over 0..=5; LintGroup::lint: histories (configuration changes, 2-5 documents built from a pool of clauses that recur at other offsets, twin clauses) on one LintGroup::empty() carrying 3 whole-document and 5 pattern test rules (two stateful, two deliberately violating the chunk premise: panics and out-of-bounds lints included), in-bounds oracle when only well-behaved rules are enabled; premise monitor: 29 exported pattern rules run chunk by chunk on the generated documents, every lint inside its chunk; every slice run_on_chunk hands to their match_to_lint with the span of the lint made = `R` correspondence line against the table-driven body model (C03Roots.run_rule_span); every lint each of the 22 struct rules (`impl Linter for`) makes on the same documents with the spans of all tokens of the document = `W` correspondence line (C03StructRoots.run_struct_rule_span: some Lint construction of the rule's row denotes it for some token indices). non-trivial = distinct in-bounds triple, distinct document with >=1 lint, distinct span case, or history with a clause recurring at another offset".into();
     let dict = FstDictionary::curated();
     let mut group = LintGroup::new_curated(dict.clone(), Dialect::American);
     for c in corpus {
